@@ -70,6 +70,11 @@ def programs():
     add("TV_assign", ("T", "pchar"), "e.v_pint = e.t_pchar;", "reject", "fixed D14: tainted_volatile<int*> = tainted<char*>")
     add("TV_assign", ("T", "fn2"), "e.v_fn = e.t_fn2;", "reject", "fixed D14: mismatched function-pointer types")
     add("TV_assign", ("T", "long"), "e.v_pint = e.t_long;", "reject", "fixed D14: an integer into a pointer cell")
+    # arrays of pointers: the element types must match as for single pointers
+    add("TV_assign", ("T", "parr"), "e.v_parr = e.t_parr;", "accept", "array of tainted pointers of the matching type")
+    add("TV_assign", ("T", "fnarr"), "e.v_fnarr = e.t_fnarr;", "accept", "array of tainted function pointers of the matching type")
+    add("TV_assign", ("T", "fn2arr"), "e.v_fnarr = e.t_fn2arr;", "reject", "array of function pointers of another function type")
+    add("TV_assign", ("T", "pchararr"), "e.v_parr = e.t_pchararr;", "reject", "tainted_volatile<int*[2]> = tainted<char*[2]>")
     # foreign-sandbox wrappers
     add("T_assign", ("Foreign", "int"), "e.t_int = e.x_int;", "reject")
     add("TV_assign", ("Foreign", "int"), "e.v_int = e.x_int;", "reject")
@@ -102,7 +107,8 @@ def programs():
     for name, expect in (("cbf_ok", "accept"), ("cbf_ok_void", "accept"), ("cbf_ok_opaque", "accept"), ("cbf_ok_retptr", "accept"),
                          ("cbf_nosbx", "reject"), ("cbf_first_not_sbx", "reject"), ("cbf_plain_param", "reject"), ("cbf_plain_ptr_param", "reject"),
                          ("cbf_plain_ret", "reject"), ("cbf_rawptr_ret", "reject"), ("cbf_arr_param", "reject"), ("cbf_vol_param", "reject"),
-                         ("cbf_othersbx_param", "reject")):
+                         ("cbf_othersbx_param", "reject"), ("cbf_othersbx_opaque_param", "reject"), ("cbf_othersbx_opaque_ret", "reject"),
+                         ("cbf_othersbx_ret", "reject")):
         add("register_callback", ("BadSig" if expect == "reject" else "GoodSig", name), "auto c = e.sb.register_callback(%s); (void)c;" % name, expect)
     # --- other routes ---
     add("free_in_sandbox", ("Plain", "pint"), "e.sb.free_in_sandbox(e.p_pint);", "reject")
@@ -141,10 +147,21 @@ def runtime_cases(tier, rng):
         for a in [1, 0, A, A + 64, A + size - 1, A + size, Bb + 5, APP_BASE, (1 << 47) - 1] + [rng.randrange(A, A + size) for _ in range(20)]:
             cases.append("rawptr%s acceptfn %d" % (cfg, a))
             cases.append("rawptr%s taintedfn %d" % (cfg, a))
+    # the third route that takes a raw application pointer: copy_memory_or_grant_access on a back end that can grant. The
+    # tainted pointer handed back is the back end's answer only when the back end SAID it succeeded; a declined request
+    # (whatever it hands back, typically the application pointer itself) falls through to the copy
+    A = CFG["32"]["bases"][0]
+    for num in (1, 16, 4096):
+        for src in (APP_BASE + 64, APP_BASE + 4096):
+            cases.append("ggrant32 %d %d 1 %d %d" % (src, num, A + 8192, 4096))
+            cases.append("ggrant32 %d %d 0 %d %d" % (src, num, src, 4096))
+            cases.append("ggrant32 %d %d 0 %d %d" % (src, num, A + 8192, 4096))
+            cases.append("ggrant32 %d %d 0 %d %d" % (src, num, 0, 4096))
     return cases
 
 
-RT_DRIVERS = drivers("CHAIN", ["rawptr"])
+RT_DRIVERS = drivers("CHAIN", ["rawptr"]) + \
+    [dict(name="ptr_grant_32", src="ptr.cpp", defines=["VERIF_CFG=verif_cfg32g", "PART_BULK", "PTR_GRANT"], ops=["ggrant32"])]   # back end WITH grant/deny
 
 
 def run(tier, seed, replay):
